@@ -9,7 +9,7 @@ def drop_findings(ck, a, rule):
         n += 1
         for o in owned:
             origin = o[2] if len(o) > 2 else None
-            key = f"drop:{place}:{origin_str(origin)}"
+            key = f"drop:{origin_key(origin)}"
             ck.finding(rule, r.site[0], key,
                        f"{short(r.site[0])}: storage buffer ({origin_str(origin)}) still owned by `{place}` is dropped (leak)", r.site,
                        {'partition': [list(x) for x in (part or ())], 'context': [f"{short(c[0])}@bb{c[1]}" for c in r.ctx]})
@@ -20,6 +20,13 @@ def drop_findings(ck, a, rule):
                    f"{short(r.site[0])}: a storage buffer ({origin_str(owned[0][2] if len(owned[0]) > 2 else None)}) is handed by value to {callee}, "
                    "for which the checker has no ownership summary: conservation not shown", r.site)
     return n
+
+
+def origin_key(o):
+    """stable part of a finding key: where the buffer came from, without the names of locals or parameters"""
+    if isinstance(o, tuple) and o and o[0] == 'param':
+        return 'parameter'
+    return origin_str(o)
 
 
 def origin_str(o):
@@ -48,8 +55,8 @@ def run(ck):
     # R2: every acquisition is matched: count acquisitions and sinks for the evidence
     acq = [r for r in a.events('call') if r.data[2] in (TRAIT_MEM + 'new_pdu', TRAIT_MEM + 'new_frag', TRAIT_MEM + 'take_frag')]
     sinks = [r for r in a.events('call') if r.data[2] in (TRAIT_MEM + 'provision_storage', TRAIT_MEM + 'save_frag')]
-    ck.rule('C08.R2 acquisition call sites (new_pdu/new_frag/take_frag)', len(set((r.site[0], r.site[1]) for r in acq)), 4)
-    ck.rule('C08.R2 give-back / save call sites (provision_storage/save_frag)', len(set((r.site[0], r.site[1]) for r in sinks)), 8)
+    ck.rule('C08.R2 acquisition call sites (new_pdu/new_frag/take_frag)', len(set((r.ctx, r.site[0], r.site[1]) for r in acq)), 4)
+    ck.rule('C08.R2 give-back / save call sites (provision_storage/save_frag)', len(set((r.ctx, r.site[0], r.site[1]) for r in sinks)), 6)   # activations: a give-back helper called from seven exits counts seven times
     for r in sinks[:4]:
         ck.sample({'sink': r.data[2].split('::')[-1], 'fn': short(r.site[0]), 'site': site_str(r.site)})
     # R4: a panicking give-back loses the buffer it carries
